@@ -76,6 +76,11 @@ def _walk(args):
                     bad.append(("Outcome", f"expected a result, got {outcome}"))
                 else:
                     routcome, rproj = ref_for(ob)
+                    if routcome == "ok" and ob["kind"] in ("rf", "interp"):
+                        # RF / Interp leave the stored simulation untouched (Reservoir.tla: UNCHANGED sim)
+                        so, sproj = ref_for({"kind": "sim", "of": ob["of"]})
+                        if so == "ok":
+                            rproj = (sproj[0], sproj[1], rproj[2])
                     if routcome != "ok":
                         bad.append(("NoRef", f"fresh object failed with {routcome} for {ob}"))
                     else:
@@ -253,7 +258,7 @@ def run(ctx: core.Ctx) -> None:
     # deviations must be refuted (non-vacuity of C10_Fresh)
     ctx.expect_refuted("Reservoir", "MC_Reservoir_dev_KeepsCache.cfg", "C10_Fresh", workers=4)
     ctx.expect_refuted("Reservoir", "MC_Reservoir_dev_ClobbersPf.cfg", "C10_Fresh", workers=4)
-    variants = [0, 1] if ctx.quick else [0, 1, 2, 3, 4, 5]
+    variants = [0, 3] if ctx.quick else [0, 1, 2, 3, 4, 5, 6]   # 3: int64 time grids; 2, 6: float32
     for kind, depth in (("single", depth_s), ("ideal", depth_i)):
         behs = export_behaviours(ctx, kind, depth)
         replay_histories(ctx, kind, behs, variants, OWN_CLAUSES)
